@@ -174,7 +174,8 @@ PROPS = {
         level="proof",
         assumptions=[
             "PROVED (all even lengths, all integer contents, unbounded): lift1..lift4 against quantified contracts; a lifting step is undone by the opposite-sign step "
-            "(inverse_even / inverse_odd, any L, D, taps, S); for each of the 7 live filters, analysis followed by synthesis and synthesis followed by analysis restore "
+            "(inverse_even / inverse_odd / stage_inverse, any L, D, taps, S; the step is the opaque spec function step == (wsum + rnd(S)) // pow2(S), unfolded only inside "
+            "the verification of the four lift bodies); for each of the 7 live filters, analysis followed by synthesis and synthesis followed by analysis restore "
             "the sequence (oned_roundtrip_filter_0..6 replay the call order of the real oned_analysis / oned_synthesis, certified by the call-trace ground fact)",
             "BOUNDED (not proved): the 2-D interleave/de-interleave loops, the level loops of dwt/idwt, the bit-shift pre/post scaling and the padding round trip - "
             "native round trips over the stated box (bounded_checks)",
